@@ -338,7 +338,8 @@ def definitions(draw):
 def histories(draw):
     # a pool of calendars that define the SAME TZID differently (fixed offsets, so expectations are unambiguous)
     offs = draw(st.lists(st.sampled_from([0, 3600, -18000, 19800, 34200, -12600]), min_size=2, max_size=4, unique=True))
-    pool = [{"tzid": "Custom/Shared", "obs": [{"kind": "STANDARD", "from": o, "to": o, "name": f"Z{i}", "start": [1970, 1, 1, 0, 0, 0]}]} for i, o in enumerate(offs)]
+    tzid = draw(st.sampled_from(["Custom/Shared", "Custom/Shared", "/Custom/Shared", "/example.org/2024/Custom/Shared/", "Custom Shared"]))
+    pool = [{"tzid": tzid, "obs": [{"kind": "STANDARD", "from": o, "to": o, "name": f"Z{i}", "start": [1970, 1, 1, 0, 0, 0]}]} for i, o in enumerate(offs)]
     wall = [draw(st.integers(1980, 2030)), draw(st.integers(1, 12)), draw(st.integers(1, 28)), 12, 0, 0]
     ops = draw(st.lists(st.one_of(st.tuples(st.just("parse"), st.integers(0, 3), st.just(wall), st.booleans()).map(list),
                                   st.just(["switch"])), min_size=1, max_size=8))
